@@ -25,6 +25,10 @@ def main() -> int:
             from checks import c05
 
             return c05.run(tier, a.seed)
+        if a.prop == "C09":
+            from checks import c09
+
+            return c09.run(tier, a.seed)
         if a.prop == "C13":
             from checks import c13
 
